@@ -1,6 +1,7 @@
 CONSTANTS
   Sigma = {"n", "/", "%", "4", "1", " ", ":", ".", "U"}
   L = 4
+  DEEP = 99
   EMIT = TRUE
 INIT Init
 NEXT Next
